@@ -33,7 +33,7 @@ def summarize(scn, h, V, nontrivial, sig, extra=None):
         "steps": len(S) + len(T),
         "sim_time": float(sum(u["dt"] for u in S) + sum(u["dt"] for u in T)),
         "probes": dict(h.probes),
-        "faults": [f["kind"] for f in h.faults_fired],
+        "faults": [f["kind"] for f in h.faults_fired] + ["guest-simulation"] * len(getattr(h, "guests_fired", [])),
         "attempts": sum(len(u["attempts"]) for u in S + T),
         "screen_iters": sum(u["n_screen"] for u in S + T),
         "sites": len(h.device.mesh.sites) if h.device is not None and h.device.mesh is not None else 0,
@@ -109,6 +109,8 @@ def common_shrinks(scn):
     faults = scn.get("faults", [])
     for fl in drop_each(faults):
         yield with_path(scn, ["faults"], fl)
+    for gl in drop_each(scn.get("guests", [])):
+        yield with_path(scn, ["guests"], gl)
     o = scn["options"]
     for key in ("solve_twice", "reload_phase", "sibling", "device_restored", "device_moved", "device_derived", "entry", "device_used_before", "options_prior_use", "mesh_reoriented"):
         if scn.get(key):
